@@ -522,6 +522,14 @@ fn run_single_program(
             let pid: i32 = child.into();
             if idx_cmd == 0 {
                 *pgid = pid;
+            }
+            // put the child into the pipeline's group from the parent side as
+            // well: a later stage may be forked (and call setpgid(0, pgid))
+            // before the first stage has created the group itself.
+            unsafe {
+                libc::setpgid(pid, *pgid);
+            }
+            if idx_cmd == 0 {
                 unsafe {
                     // we need to wait pgid of child set to itself,
                     // before give terminal to it (for macos).
